@@ -388,4 +388,4 @@ def strata(tier, seed):
     ls = [dict(n=n, box=bk, d=d, rank=rk, ms=[2, 3, 7], seed=seed)
           for n in range(2, (6 if tier == 'quick' else 9)) for bk in single for d in (1, 2, 3) for rk in (2, 3)
           if not (d == 1 and rk == 3)]
-    yield Stratum('linearity / general / diff / sine', ls, 'linear', size=len(ls), chunk=4, bounds={})
+    yield Stratum('linearity / general / diff / sine', ls, 'linear', seq=(tier == 'quick'), size=len(ls), chunk=4, bounds={})
